@@ -47,6 +47,7 @@ type Outcome struct {
 	Obs      []fd.Obs `json:"obs"`
 	Late     []fd.Ev  `json:"late,omitempty"`
 	Unstable bool     `json:"unstable,omitempty"`
+	Suspicious bool   `json:"suspicious,omitempty"`
 	Tries    int      `json:"tries,omitempty"`
 }
 
@@ -81,7 +82,7 @@ func (wk *worker) runOnce(h *Hist) Outcome {
 	}
 	obs, late := w.History(h.Cfg, ops)
 	out := Outcome{Obs: obs, Late: late}
-	for _, o := range obs {
+	for oi, o := range obs {
 		// A client timeout that fires on a request that was not made to stall (machine
 		// load) changes what the code under test sees.  It costs the whole client timeout,
 		// so it shows in the duration of the sync: such a history is run again.
@@ -95,6 +96,11 @@ func (wk *worker) runOnce(h *Hist) Outcome {
 		if o.Slow || (o.Result != "noevent" && o.Millis > budget) {
 			out.Unstable = true
 		}
+		// No notification for an announcement of a head that is not synced: either a
+		// defect or a notification that came too late; run again to tell them apart.
+		if o.Result == "noevent" && o.Latest0 != h.Ops[oi].Head {
+			out.Suspicious = true
+		}
 	}
 	return out
 }
@@ -106,7 +112,7 @@ func (wk *worker) run(h *Hist) Outcome {
 	for try := 1; try <= 4; try++ {
 		out = wk.runOnce(h)
 		out.Tries = try
-		if !out.Unstable {
+		if !out.Unstable && !(out.Suspicious && try < 3) {
 			break
 		}
 	}
